@@ -71,13 +71,10 @@ def dict_concat(*dicts):
         return {}
     elif len(dicts) == 1:
         return {key: [value] for key, value in dicts[0].items()}  # a shortcut, we dont need to run a full merge
-    possible_keys = list(set([tuple(sorted(d.keys())) for d in dicts]))
+    possible_keys = list(set([tuple(sort(d.keys())) for d in dicts])) ## sort, not sorted: keys need not be of one type (pivot makes columns of y values beside the string x columns)
     if len(possible_keys) == 1:
-        pairs = [sorted(d.items()) for d in dicts]
         keys = possible_keys[0]
-        values = zip(*[[value for _, value in row] for row in pairs])
-        res = dict(zip(keys, map(list, values)))
-        return res
+        return {key : [d[key] for d in dicts] for key in keys}
     else:
         keys = reduce(lambda res, keys: res | set(keys), possible_keys, set())
         return {key: [d.get(key) for d in dicts] for key in keys}
